@@ -1,4 +1,4 @@
-SPECIFICATION MCSpec
+SPECIFICATION MCSpecFunc
 CONSTANTS
   FixReturn = TRUE
   FixOrigin = TRUE
